@@ -407,6 +407,43 @@ func (p *Prog) ConstGlobal(g *ssa.Global) ssa.Value {
 						pure = false
 					}
 				}
+			case *ssa.MakeMap:
+				// a map literal of constants that is only read afterwards (`var names = map[Kind]string{...}`)
+				pure = true
+				for _, ref := range *v.Referrers() {
+					switch y := ref.(type) {
+					case *ssa.MapUpdate:
+						_, k1 := y.Key.(*ssa.Const)
+						_, k2 := y.Value.(*ssa.Const)
+						if !k1 || !k2 {
+							pure = false
+						}
+					case *ssa.Store:
+						if y.Val != ssa.Value(v) || y.Addr != ssa.Value(gg) {
+							pure = false
+						}
+					case *ssa.DebugRef:
+					default:
+						pure = false
+					}
+				}
+				for _, u := range us {
+					ld, isLoad := u.(*ssa.UnOp)
+					if !isLoad {
+						continue
+					}
+					for _, ref := range *ld.Referrers() {
+						switch y := ref.(type) {
+						case *ssa.Lookup, *ssa.Range, *ssa.DebugRef:
+						case *ssa.Call:
+							if b, isB := y.Call.Value.(*ssa.Builtin); !isB || b.Name() != "len" {
+								pure = false
+							}
+						default:
+							pure = false
+						}
+					}
+				}
 			}
 			if pure {
 				p.constGlobals[gg] = val
